@@ -584,14 +584,14 @@ def deleted_target_cases(prefix, kinds=("ovl_mm", "ovl_sub", "ovl_mmm", "alt_ovl
     cases = []
     ops1 = ["exists", "metadata", "isfile", "isdir", "readdir", "openfile", "appendfile", "createfile", "createdir", "removefile",
             "removedir", "removedirall", "readtostring", "walkdir", "setmtime"]
-    for kind in kinds:
+    for kind, layer in [(k, 0) for k in kinds] + [("ovl_mmm", -1)]:
         for victim in ("file", "nested_file", "subtree"):
             for opk in ops1 + ["copyfile_from", "movefile_from", "copyfile_onto", "copydir_from"]:
-                c = vfx.Case("%s_deleted_%s_%s_%s" % (prefix, kind, victim, opk))
+                c = vfx.Case("%s_deleted_%s%s_%s_%s" % (prefix, kind, "_bottom" if layer else "", victim, opk))
                 g = build_config(c, kind, rng)
                 c.cfg = g
                 t = g.target
-                lo, sub = g.prepop[0]
+                lo, sub = g.prepop[layer]         # the first lower layer, or the bottom one of three
                 base = sub[1:] + "/" if sub else ""
                 c.op("createdirall", vfx.ps(lo, base + "d/e"))
                 write_file(c, lo, base + "f", b"lower f")
@@ -733,19 +733,69 @@ def wo_names_cases(prefix, kinds=("ovl_mm", "ovl_sub", "ovl_mmm", "alt_ovl")):
             d = "" if where == "root" else "d/"
             if d:
                 c.op("createdirall", vfx.ps(lo, base + "d"))
-            for n in ("x", "x_wo", "y_wo", "y_wo_wo", "z"):
+            for n in ("x", "x_wo", "y_wo", "y_wo_wo", "z", "net", "net_work.txt", "a_wo_b", "a"):
                 write_file(c, lo, base + d + n, n.encode())
+            # a directory whose NAME contains the suffix in the middle: its bookkeeping directory under .whiteout
+            # has the same name and must not be read as a marker of its sibling "two"
+            c.op("createdirall", vfx.ps(lo, base + d + "two_words"))
+            write_file(c, lo, base + d + "two_words/k", b"k")
+            write_file(c, lo, base + d + "two", b"two")
             c.op("snap", t)
             c.first_snap = c.nops - 1
             listing = "%d:" % t if not d else vfx.ps(t, "d")
-            for victim in ("x_wo", "y_wo_wo"):
+            for victim in ("x_wo", "y_wo_wo", "net_work.txt", "a_wo_b", "two_words/k"):
                 c.op("removefile", vfx.ps(t, d + victim))
                 c.op("readdir", listing); c.op("exists", vfx.ps(t, d + "x")); c.op("exists", vfx.ps(t, d + "y_wo"))
+                c.op("exists", vfx.ps(t, d + victim)); c.op("exists", vfx.ps(t, d + "net")); c.op("exists", vfx.ps(t, d + "two"))
                 c.op("walkdir", "%d:" % t); c.op("snap", t)
+            c.op("removedir", vfx.ps(t, d + "two_words"))
+            c.op("readdir", listing); c.op("snap", t)
             write_file(c, t, d + "x_wo", b"again")
             c.op("readdir", listing); c.op("snap", t)
             c.op("removefile", vfx.ps(t, d + "x"))
             c.op("readdir", listing); c.op("exists", vfx.ps(t, d + "x_wo")); c.op("snap", t)
+            for w in g.watch:
+                c.op("snap", w)
+            cases.append(c)
+    return cases
+
+
+def size_cases(prefix, kinds):
+    """sizes and shapes that small universes never reach: a directory with 40 entries whose names sort around each
+    other (f9 < f10?, names that are prefixes of names, upper/lower case), nesting 12 deep, a long name - listed, walked,
+    copied, moved and removed as a whole"""
+    rng = random.Random(41)
+    cases = []
+    wide = ["f%d" % i for i in range(12)] + ["f%02d" % i for i in range(12)] + ["F1", "f", "f1x", "f1.x", "g-", "g_", "g.", "g",
+                                                                                  "gg", "é1", "é", "日", "z" * 60, "~", "!", "0"]
+    for kind in kinds:
+        for shape in ("wide", "deep"):
+            c = vfx.Case("%s_size_%s_%s" % (prefix, kind, shape))
+            g = build_config(c, kind, rng)
+            c.cfg = g
+            t = g.target
+            if shape == "wide":
+                c.op("createdir", vfx.ps(t, "w"))
+                for i, n in enumerate(wide):
+                    if i % 5 == 4:
+                        c.op("createdir", vfx.ps(t, "w/" + n))
+                        write_file(c, t, "w/" + n + "/in", n.encode())
+                    else:
+                        write_file(c, t, "w/" + n, n.encode())
+                root = "w"
+            else:
+                deep = "/".join("d%d" % i for i in range(12))
+                c.op("createdirall", vfx.ps(t, "w/" + deep))
+                write_file(c, t, "w/" + deep + "/leaf", b"leaf")
+                write_file(c, t, "w/d0/d1/mid", b"mid")
+                root = "w"
+            c.op("snap", t)
+            c.first_snap = c.nops - 1
+            c.op("readdir", vfx.ps(t, root)); c.op("walkdir", vfx.ps(t, root)); c.op("walkdir", "%d:" % t)
+            c.op("copydir", vfx.ps(t, root), vfx.ps(t, "w2")); c.op("snap", t)
+            c.op("movedir", vfx.ps(t, "w2"), vfx.ps(t, "w3")); c.op("snap", t)
+            c.op("removedirall", vfx.ps(t, root)); c.op("snap", t)
+            c.op("walkdir", "%d:" % t); c.op("readdir", vfx.ps(t, "w3"))
             for w in g.watch:
                 c.op("snap", w)
             cases.append(c)
